@@ -269,6 +269,11 @@ func RuleSpecs() []*RuleSpec {
 			add(rs)
 		}
 	}
+	// maps: rules of the values
+	add(&RuleSpec{ID: "map-items:string-minlen2", Family: "map-items", Kind: TString, MinLen: u64(2), Attrs: []string{"itemSchema.string.rules.minLength = 2"}})
+	add(&RuleSpec{ID: "map-items:string-minlen2-pairs", Family: "map-items", Kind: TString, MinLen: u64(2), MinPairs: u64(1), Attrs: []string{"itemSchema.string.rules.minLength = 2", "rules.minPairs = 1"}})
+	add(&RuleSpec{ID: "map-items:int32-min1", Family: "map-items", Kind: TInt32, Min: i64(1), Attrs: []string{"itemSchema.integer.rules.minimum = 1"}})
+	add(&RuleSpec{ID: "map-items:id62", Family: "map-items", Kind: TKeyID62, KeyFormat: "id62"})
 	// arrays
 	items := []*RuleSpec{
 		{ID: "string", Family: "string", Kind: TString},
